@@ -38,8 +38,9 @@ RULE = ("one case = a sequence of boots from one process; non-trivial = the "
         "them (or with different ones) and an image of more than one block; "
         "distinct by case")
 ASSUMPTIONS = [
-    "images are at least 512 bytes (the configuration area exists) and a "
-    "whole number of words, below the 32 KiB limit",
+    "images are at least 384 bytes (the configuration area starts inside "
+    "the file; a shorter file is extended so that the whole area is sent) "
+    "and a whole number of words, below the 32 KiB limit",
     "a system variable whose name is also a formal parameter of boot() "
     "(boot_delay) can only be set through sv_overrides",
     "array-valued system variables are not overridden",
@@ -95,7 +96,8 @@ def gen(cls, idx, rng, tier):
                 if name not in kw:
                     dct[name] = rng.getrandbits(
                         8 * struct.calcsize("<" + ch))
-        size = rng.choice([512, 516, 1020, 1024, 1028, 2048, 4 * rng.randint(
+        size = rng.choice([384, 388, 448, 508,
+                           512, 516, 1020, 1024, 1028, 2048, 4 * rng.randint(
             128, 8190), 32764, 32760])
         if cls != "sizes" and rng.random() < .7:
             size = 4 * rng.randint(128, 1200)
@@ -164,8 +166,11 @@ def judge_boot(ctx, dgs, image, options, vals_time, structs, where):
         data += body
     if n_blocks > 1:
         ctx.hit("multi_block_image")
-    check(len(data) == len(image), "image-length",
-          "%d bytes sent, image has %d" % (len(data), len(image)), **where)
+    check(len(data) == max(len(image), 512), "image-length",
+          "%d bytes sent, image has %d (the configuration area ends at 512)"
+          % (len(data), len(image)), **where)
+    if len(image) < 512:
+        ctx.hit("image_ends_inside_configuration_area")
     bad = [i for i in range(len(image)) if not 384 <= i < 512 and
            data[i] != image[i]]
     check(not bad, "image-bytes", "byte %d of the image arrives as %#04x, "
